@@ -140,6 +140,18 @@ CHECKS = {
         "test in thorough, a test). dtype is not modelled; known finding: integer-dtype truncation in FeatureShift / BrownianNoise.",
    technique="Lean 4 proof (structural induction over tables, field algebra) + differential correspondence with RNG taps + frame-condition clauses on the implementation",
    ref="§7 C20"),
+ "C07": dict(
+   text="Lean 4 theorems for all histories and configurations: drift iff the test is due on this batch (since >= max(2, detect_batch)) and the recorded epsilon > "
+        "recorded beta; the recorded distance is the feature average of the distances between histograms over the common range with floor(sqrt(n_ref)) bins; "
+        "reference append / replace / reset (incl. the detect_batch=1 split and proxy batch), feature_info arg-max and counters for every carrier incl. the "
+        "executed Float model; epsilon / beta formulas over ordered fields (beta from exactly the epoch's epsilons); over R: Hellinger and Jensen-Shannon are 0 "
+        "on equal histograms, symmetric, bounded by sqrt(2) / sqrt(ln 2), histogram totals and numpy's bin rule. Tied to the code by per-call correspondence "
+        "(np.histogram and scipy rel_entr semantics modelled in Lean) and declarative clauses recomputed on implementation records.",
+   note="Float rounding, the bootstrap epsilon_0 (replayed from the seeded DataFrame.sample draws and checked against the public thresholds) and the t critical "
+        "value (scipy, df validated) are inputs. The +-1 edge corrections of np.histogram are tied to numpy only by the correspondence. Known finding: "
+        "detect_batch=1 with a 2-row new reference.",
+   technique="Lean 4 proof (invariants / induction over batch histories, field algebra, real analysis for the divergence bounds) + differential correspondence + declarative clauses on implementation records",
+   ref="§7 C07"),
  "C13": dict(
    text="Lean 4 theorems for all n and all parameters: majority/minimum/ordered verdict iff count rule, range, monotonicity; "
         "ConfirmedElection refines the documented per-member voter automaton, counters <= wait_time. Tied to election.py by an "
